@@ -175,6 +175,14 @@ def check(run):
     elif out and out[0]["ast"] != ["ref", "x"]:
         run.violation("C11/parens", "300 redundant parentheses change the tree", {"family": "parens", "text": "(" * 300 + "x" + ")" * 300, "why": "tree changed"})
     run.traces += 1
+    # directed: many parenthesised groups side by side (each group is closed: nothing may add up across them)
+    for bare, grouped in ((", ".join(["a + 1"] * 300), ", ".join(["( a + 1 )"] * 300)), ("; ".join(["x = x + 1"] * 300), "; ".join(["( x = x + 1 )"] * 300))):
+        a, _ = core.run_vh(["parse-one", "[ " + bare + " ]" if "," in bare else bare])
+        b, _ = core.run_vh(["parse-one", "[ " + grouped + " ]" if "," in grouped else grouped])
+        run.traces += 2
+        if not (a and b and a[0]["ok"] and b[0]["ok"] and a[0]["ast"] == b[0]["ast"]):
+            run.violation("C11/parens", "300 parenthesised groups side by side parse differently from the bare form (%s / %s)" % (a[0]["ok"] if a else None, b[0]["ok"] if b else None),
+                          {"family": "parens", "text": ("[ " + grouped + " ]" if "," in grouped else grouped), "why": "groups side by side"})
     if budget_hits:
         # documented limit of the C01 repair: beyond the nesting budget (and only beyond the grammar's TokenFloor) extra parentheses are refused
         run.violation("C11/nesting-budget", "%d wrapped programs longer than 200 tokens were refused by the nesting budget" % budget_hits, {"family": "parens", "count": budget_hits})
